@@ -33,7 +33,9 @@ Versions == {"HTTP/1.1", "HTTP/1.0"}
 
 \* body symbols: "a" stands for an arbitrary byte (the harness substitutes NUL, 0xFF, CR, '0' ...), LF is itself
 BodySyms == {"a", LF}
-Pattern == "a\naa\n\naaa\na\n\n\naaaa\naa\n\na\naaaaa\n"
+PatternBase == "a\naa\n\naaa\na\n\n\naaaa\naa\n\na\naaaaa\n"          \* 31 symbols
+Pattern == PatternBase \o PatternBase \o PatternBase \o PatternBase
+ASSUME MaxBig <= Len(Pattern) /\ MaxBody <= Len(Pattern)
 Bodies == IF BodyMode = "all"
           THEN UNION { { Concat(f) : f \in [1..k -> BodySyms] } : k \in 0..MaxBody }
           ELSE { Take(Pattern, k) : k \in 0..MaxBody }
